@@ -16,8 +16,8 @@ import (
 	"time"
 
 	jose "github.com/go-jose/go-jose/v4"
-	oidccrypto "github.com/zitadel/oidc/v3/pkg/crypto"
 	"github.com/zitadel/oidc/v3/pkg/client/rp"
+	oidccrypto "github.com/zitadel/oidc/v3/pkg/crypto"
 	"github.com/zitadel/oidc/v3/pkg/oidc"
 
 	"verif/internal/ev"
